@@ -293,6 +293,10 @@ const c09clientDeadline = 5 * time.Minute
 
 // c09raw performs one raw exchange on the protocol and reports what the server did.
 func c09raw(ctx context.Context, h host.Host, srv peer.ID, proto string, req []byte, mode c09rawMode) c09outcome {
+	return c09rawD(ctx, h, srv, proto, req, mode, c09clientDeadline)
+}
+
+func c09rawD(ctx context.Context, h host.Host, srv peer.ID, proto string, req []byte, mode c09rawMode, c09clientDeadline time.Duration) c09outcome {
 	sctx, cancel := context.WithTimeout(ctx, c09clientDeadline)
 	defer cancel()
 	s, err := h.NewStream(sctx, srv, shrex.ProtocolID(c09net, proto))
